@@ -9,8 +9,8 @@ SRC=$1; WT=$2; shift 2
 PROP=$(python3 -c "import json;print(json.load(open('$SRC/meta.json'))['property'])")
 NAME=${SEEDNAME:-$PROP-$(basename $(dirname $SRC))}
 CHECKS=${@:-$PROP}
-DEMO_PATH=$(python3 -c "import json;print(json.load(open('$SRC/meta.json'))['demo_path'])")
-DEMO_CMD=$(python3 -c "import json;print(json.load(open('$SRC/meta.json'))['demo_cmd'])")
+DEMO_PATH=$(python3 -c "import json;print(json.load(open('$SRC/meta.json'))['demo_path'].split()[0])")
+DEMO_CMD=$(python3 -c "import json,re;print(re.sub(r'\s{2,}\(.*\)\s*$','',json.load(open('$SRC/meta.json'))['demo_cmd']))")
 DEMO_FILE=$(ls $SRC | grep -v -E '^(patch.diff|meta.json)$' | head -1)
 echo "== $NAME: property $PROP demo=$DEMO_FILE -> $DEMO_PATH cmd: $DEMO_CMD"
 git -C $WT checkout -q -- . ; git -C $WT clean -fdq
